@@ -1,6 +1,7 @@
 """Per-property configuration of the driver."""
 
 PROPS = {
+    "C04": dict(level="proof", num=4, rule="see harness c04.go"),
     "C14": dict(level="proof", num=14,
                 rule="see harness c14.go: random call programs over universes of 3/12/200 keys incl. nil/empty keys and values; raw estimate after every call; both flush variants read back",
                 trusted=["flush path: the table writer/reader are the L4 model's concern (C03/C15); here the flushed table is read back through the real reader and compared with the pairs the model hands to the writer"]),
